@@ -2,6 +2,7 @@
 package vmmap
 
 import (
+	"sync"
 	"unsafe"
 
 	mmap "github.com/edsrzf/mmap-go"
@@ -21,14 +22,23 @@ const (
 type MMap []byte
 
 var (
+	mu    sync.Mutex // the code under test may map from several free-running goroutines (background merge)
 	paths = map[uintptr]string{}
 	live  = map[uintptr]mmap.MMap{}
 )
+
+func pathOf(k uintptr) string {
+	mu.Lock()
+	defer mu.Unlock()
+	return paths[k]
+}
 
 // ReleaseAll unmaps every mapping the code under test left behind (an abandoned instance after a panic, a failed
 // Open that did not release what it had mapped): the next execution of the same process starts without them, so a
 // long exploration cannot run into the per-process mapping limit. Returns how many there were.
 func ReleaseAll() int {
+	mu.Lock()
+	defer mu.Unlock()
 	n := len(live)
 	for k, m := range live {
 		m.Unmap()
@@ -65,8 +75,10 @@ func MapRegion(f *vos.File, length int, prot, flags int, offset int64) (MMap, er
 	if err != nil {
 		return nil, err
 	}
+	mu.Lock()
 	paths[key(MMap(out))] = name
 	live[key(MMap(out))] = out
+	mu.Unlock()
 	return MMap(out), nil
 }
 
@@ -74,19 +86,21 @@ func (m MMap) Lock() error   { return mmap.MMap(m).Lock() }
 func (m MMap) Unlock() error { return mmap.MMap(m).Unlock() }
 
 func (m MMap) Flush() error {
-	return iorec.Do("msync", paths[key(m)], "", 0, int64(len(m)), func() error { return mmap.MMap(m).Flush() })
+	return iorec.Do("msync", pathOf(key(m)), "", 0, int64(len(m)), func() error { return mmap.MMap(m).Flush() })
 }
 
 func (m *MMap) Unmap() error {
 	k := key(*m)
-	name := paths[k]
+	name := pathOf(k)
 	return iorec.Do("munmap", name, "", 0, int64(len(*m)), func() error {
 		r := mmap.MMap(*m)
 		err := r.Unmap()
 		*m = MMap(r)
 		if err == nil {
+			mu.Lock()
 			delete(paths, k)
 			delete(live, k)
+			mu.Unlock()
 		}
 		return err
 	})
